@@ -639,7 +639,12 @@ impl HeaderView {
 /// Returns None when no size can be determined (no start code, truncated,
 /// inherited format). Never consults the code under test.
 pub fn declared_size(data: &[u8], sorenson: bool) -> Option<(u32, u32)> {
-    for off in 0..=8usize {
+    declared_size_at(data, 0, sorenson)
+}
+
+/// Same probe, starting at an arbitrary bit position of the source.
+pub fn declared_size_at(data: &[u8], start: usize, sorenson: bool) -> Option<(u32, u32)> {
+    for off in start..=start + 8 {
         if bits_at(data, off, 17) == Some(1) {
             let mut p = off + 17;
             let mut rd = |n: u32| -> Option<u64> {
